@@ -14,7 +14,11 @@ the base `[reflect, eager]` is never popped.
 
 A program is a nested tuple:
     ("skip",) ("obs",) ("raise",) ("probe", k, armed) ("with", ctx, body) ("deco", ctx, body)
-    ("seq", [p…]) ("catch", body)            ctx = "memoize" | "tape" | "subst0" | <name>;  ("with", "subst", ("probe", "S", armed)) is a
+    ("seq", [p…]) ("catch", body)
+    ("def", f, ctx, body)  `@ctx def f(): body` applied at this point (stack state S1);
+    ("call", f)            `f()` at this point (stack state S2); f is visible to the later items of the
+                           sequence containing its def (and everything nested in them).  For the model a call is
+                           `(deco ctx body)` at the CALL site (`inline`): entering happens at call time            ctx = "memoize" | "tape" | "subst0" | <name>;  ("with", "subst", ("probe", "S", armed)) is a
     call of funsor.terms.substitute on a fresh MarkS term (its eager_subs is the probe)
 """
 import ast
@@ -354,8 +358,33 @@ class PyModel:
 # serialisation
 # --------------------------------------------------------------------------------------
 
+def inline(p, env=None):
+    """The model's view: a call of a decorated function is `with ctx:` around its body AT CALL TIME;
+    the decoration itself does nothing to the stack.  Names are resolved in textual order (generators
+    guarantee that a def has been executed before any of its calls).  KeyError = call before def."""
+    env = {} if env is None else env
+    t = p[0]
+    if t == "seq":
+        return ("seq", [inline(q, env) for q in p[1]])
+    if t == "def":
+        env[p[1]] = (p[2], inline(p[3], env))
+        return ("skip",)
+    if t == "call":
+        c, body = env[p[1]]
+        return ("deco", c, body)
+    if t in ("with", "deco"):
+        return (t, p[1], inline(p[2], env))
+    if t == "catch":
+        return ("catch", inline(p[1], env))
+    return p
+
+
 def sx_prog(p):
     t = p[0]
+    if t == "def":
+        return "(def %s %s %s)" % (p[1], p[2], sx_prog(p[3]))
+    if t == "call":
+        return "(call %s)" % p[1]
     if t in ("obs", "raise", "skip"):
         return t
     if t == "probe":
@@ -399,6 +428,12 @@ def to_python(p, ind=0, lines=None, fn=None):
         lines.append(pad + "def %s():" % name)
         to_python(p[2], ind + 1, lines, fn)
         lines.append(pad + "%s()" % name)
+    elif t == "def":
+        lines.append(pad + "@ctx(%r)" % p[2])
+        lines.append(pad + "def %s():" % p[1])
+        to_python(p[3], ind + 1, lines, fn)
+    elif t == "call":
+        lines.append(pad + "%s()" % p[1])
     elif t == "catch":
         lines.append(pad + "try:")
         to_python(p[1], ind + 1, lines, fn)
@@ -489,12 +524,30 @@ def prog_tape_reuse(c1, c2, kinds):
     return ("seq", [blk(c1, kinds[0]), ("obs",), ("catch", blk(c2, kinds[1])), ("obs",)] + LIGHT)
 
 
+def prog_decorate_call(dchain, k, cchain, k2, kinds):
+    """family E: `@k def f` / `@k def g` (g raises) are DECORATED inside the blocks `dchain` (stack state S1)
+    and CALLED inside the blocks `cchain` (stack state S2), and once more at top level; `@k2 def h` calls f
+    (nested decorated functions).  The model enters k at call time, on the call-time stack."""
+    nd, nc = len(dchain), len(cchain)
+    defs = [("def", "f", k, ("seq", [("obs",)] + FULL)),
+            ("def", "g", k, ("seq", [("obs",)] + LIGHT + [("raise",)]))]
+    calls = [("catch", ("call", "f")), ("obs",), ("catch", ("call", "g")), ("obs",),
+             ("catch", ("call", "h")), ("obs",)] + LIGHT
+    return ("seq", nest(dchain, kinds[:nd], defs)
+            + [("obs",), ("def", "h", k2, ("seq", [("obs",), ("call", "f"), ("obs",)] + LIGHT))]
+            + nest(cchain, kinds[nd:nd + nc], calls)
+            + [("obs",), ("catch", ("call", "f")), ("obs",)])
+
+
 def random_prog(rng, depth, budget):
     """family C: arbitrary well-nested programs (sequences, nested try/except, decorators,
     substitution, armed probes), deeper than the exhaustive bound."""
-    def go(d, shared_open=False):
+    fresh = itertools.count(1)
+
+    def go(d, shared_open=False, visible=()):
         n = rng.choice([1, 1, 2, 2, 3])
         items = []
+        visible = list(visible)     # lexical scope: a def is visible to later items of this list and below
         for _ in range(n):
             if budget[0] <= 0:
                 break
@@ -503,9 +556,18 @@ def random_prog(rng, depth, budget):
             if d < depth and r < 0.50:
                 c = rng.choice(ALPHABET + ["P", "P", "W", "subst0", "tape", "memoize"] + ([] if shared_open else ["tapeR"] * 3))
                 kind = "deco" if rng.random() < 0.3 else "with"
-                blk = (kind, c, ("seq", go(d + 1, shared_open or c == "tapeR")))
+                blk = (kind, c, ("seq", go(d + 1, shared_open or c == "tapeR", visible)))
                 items.append(("catch", blk) if rng.random() < 0.35 else blk)
-            elif r < 0.62:
+            elif d < depth and r < 0.56:
+                # decorator form: decorate here, call later (under a different stack)
+                name = "f%d" % next(fresh)
+                items.append(("def", name, rng.choice(ALPHABET + ["P", "P", "W"]),
+                              ("seq", go(d + 1, True, visible))))
+                visible.append(name)
+            elif visible and r < 0.66:
+                call = ("call", rng.choice(visible))
+                items.append(("catch", call) if rng.random() < 0.4 else call)
+            elif r < 0.70:
                 items.append(("obs",))
             elif r < 0.80:
                 items.append(("probe", rng.choice(PROBES + ["S"]), rng.random() < 0.3))
@@ -514,7 +576,7 @@ def random_prog(rng, depth, budget):
             elif r < 0.94:
                 items.append(("raise",))
             else:
-                items.append(("catch", ("seq", go(d, shared_open))))
+                items.append(("catch", ("seq", go(d, shared_open, visible))))
         items.append(("obs",))
         return items
     return ("seq", [("obs",)] + go(0))
@@ -542,6 +604,9 @@ def shape(p):
         return d + 1, n + 1
     if t == "catch":
         return shape(p[1])
+    if t == "def":
+        d, n = shape(p[3])
+        return d + 1, n + 1
     return 0, 0
 
 
@@ -605,7 +670,7 @@ class Checker:
             return
         answers = None
         if self.use_driver:
-            answers = self.ctx.driver.ask(["C17 exec " + sx_prog(p[0]) for p in pend])
+            answers = self.ctx.driver.ask(["C17 exec " + sx_prog(inline(p[0])) for p in pend])
         for idx, (prog, label, out, fin, obs, viol) in enumerate(pend):
             real_line = out + "|" + fin + "|" + "|".join(obs)
             if answers is not None:
@@ -615,13 +680,13 @@ class Checker:
                     continue
                 model_line = a[3:]
                 if self.echo(idx):
-                    po, pf, pl = self.py.run(prog)
+                    po, pf, pl = self.py.run(inline(prog))
                     if po + "|" + pf + "|" + "|".join(pl) != model_line:
                         self.ctx.infra_errors.append(
                             f"python port of the model disagrees with Lean on {sx_prog(prog)[:300]}")
                         continue
             else:
-                po, pf, pl = self.py.run(prog)
+                po, pf, pl = self.py.run(inline(prog))
                 model_line = po + "|" + pf + "|" + "|".join(pl)
             self.account(prog, label, out, obs)
             if viol or real_line != model_line:
@@ -672,14 +737,20 @@ class Checker:
 def run_both(chk, prog):
     r = RealRun(chk.inv)
     out, fin = r.run(prog)
-    po, pf, pl = chk.py.run(prog)
+    po, pf, pl = chk.py.run(inline(prog))
     return out + "|" + fin + "|" + "|".join(r.obs), po + "|" + pf + "|" + "|".join(pl), r.viol
 
 
 def shrink(chk, prog):
     """Greedy structural shrinking against the Python port of the model + the identity oracle."""
     def bad(p):
+        try:
+            inline(p)
+        except KeyError:        # the candidate dropped a def that is still called
+            return False, "", "", []
         a, b, v = run_both(chk, p)
+        if a.startswith("!ScopeError"):     # the candidate made a def unreachable
+            return False, a, b, v
         return (a != b or bool(v)), a, b, v
 
     ok, a, b, v = bad(prog)
@@ -729,6 +800,9 @@ def candidates(p):
         yield p[1]
         for c in candidates(p[1]):
             yield ("catch", c)
+    elif t == "def":
+        for c in candidates(p[3]):
+            yield ("def", p[1], p[2], c)
     elif t == "probe" and p[2]:
         yield ("probe", p[1], False)
 
@@ -773,6 +847,18 @@ def enumerate_reuse(ctx, chk):
             chk.add(prog_tape_reuse(c1, c2, kinds_for(ctx.rng, 3)), "D:tape-reuse")
 
 
+def enumerate_decorate_call(ctx, chk, thorough):
+    rng = ctx.rng
+    chains = {n: [list(c) for c in itertools.product(ALPHABET, repeat=n)] for n in (0, 1, 2)}
+    combos = [(0, 0), (0, 1), (0, 2), (1, 0), (1, 1), (1, 2), (2, 0), (2, 1)] + ([(2, 2)] if thorough else [])
+    for nd, nc in combos:
+        for dchain in chains[nd]:
+            for cchain in chains[nc]:
+                for k in ALPHABET:
+                    chk.add(prog_decorate_call(dchain, k, cchain, rng.choice(ALPHABET), kinds_for(rng, nd + nc)),
+                            "E:decorate-then-call")
+
+
 def correspond(ctx, use_driver=True, volume=1):
     tb = tables()
     ctx.rule = ("EXHAUSTIVE: every chain of nested blocks of depth 0..D (D=4 quick, 5 thorough) over the 10 contexts "
@@ -781,7 +867,10 @@ def correspond(ctx, use_driver=True, volume=1):
                 "refusal is reachable within the depth bound)}: (A) entered and left normally with an observation at every "
                 "position and probes at the innermost one and after the exit; (B) ProbeError raised at the innermost position "
                 "with the try/except at every level j; (B2) raised after inner blocks i.. closed, for every i; one extra per "
-                "chain raising inside a rule / inside substitute(); (D) one AdjointTape object re-entered under every pair of contexts.  with-vs-decorator per block is drawn from the PRNG.  "
+                "chain raising inside a rule / inside substitute(); (D) one AdjointTape object re-entered under every pair of contexts; (E) DECORATOR form with decoration and call at "
+                "different stack states: `@k def f` decorated inside every block chain of depth <= 2 and called (normally, raising, "
+                "and from inside another decorated function) inside every block chain of depth <= 2 (quick: depth sum <= 3), for every k "
+                "— the model enters k at call time.  with-vs-decorator per block is drawn from the PRNG.  "
                 "RANDOM (C): general programs with sequences, nested try/except, substitution, armed probes, depth <= 7, and "
                 "7..9 nested partial interpretations.  Non-trivial = nesting depth >= 2; distinct by program text.")
     if not base_check(ctx, tb):
@@ -790,6 +879,7 @@ def correspond(ctx, use_driver=True, volume=1):
     D = 4 if ctx.tier == "quick" else 5
     enumerate_all(ctx, chk, D)
     enumerate_reuse(ctx, chk)
+    enumerate_decorate_call(ctx, chk, ctx.tier != "quick")
     ctx.exhaustive = True
     n_rand = (3000 if ctx.tier == "quick" else 40000) * volume
     for _ in range(n_rand):
@@ -815,6 +905,15 @@ def search(ctx, broken):
     before = have()
     enumerate_all(ctx, chk, 3)
     enumerate_reuse(ctx, chk)
+    chk.flush()
+    if have() > before:
+        return
+    chains1 = [[]] + [[c] for c in ALPHABET]
+    for dchain in chains1:
+        for cchain in chains1:
+            for k in ALPHABET:
+                chk.add(prog_decorate_call(dchain, k, cchain, ctx.rng.choice(ALPHABET), kinds_for(ctx.rng, 2)),
+                        "E:decorate-then-call")
     chk.flush()
     if have() > before:
         return
